@@ -124,6 +124,7 @@ func (fc *FnCtx) callFunc(fr *Frame, st *State, reach string, callee *ssa.Functi
 		if eff == "" {
 			fc.unboundedWait(fr, reach, "call of "+shortName(callee)+" (no blocking effect declared)")
 		}
+		fc.curBinds = binds
 		return fc.callByContract(fr, st, reach, con, callee, args, call)
 	}
 	if len(callee.Blocks) > 0 && fc.eng.inRepo(callee) {
